@@ -117,6 +117,18 @@ def _nested_arith(t):
     return t.decl().kind() in (z3.Z3_OP_ADD, z3.Z3_OP_SUB)
 
 
+IMOD = z3.Function('imod', INT, INT, INT)
+
+
+def imod_facts(x, y):
+    """Facts about Python's x % y for integers (y > 0 is the only case the code under contract uses)."""
+    r = IMOD(x, y)
+    return z3.And(
+        z3.Implies(y > 0, z3.And(r >= 0, r < y, r == x % y)),
+        z3.Implies(z3.And(y > 0, x >= -y, x < 2 * y), r == z3.If(x < 0, x + y, z3.If(x >= y, x - y, x))),
+        z3.Implies(y < 0, r == -((-x) % (-y))))
+
+
 PI = z3.Real('pi')
 PI_AXIOMS = [PI > z3.RealVal('3.14159'), PI < z3.RealVal('3.1416')]
 
@@ -252,7 +264,9 @@ def binop(op, a, b, ob=None):
                 ob('div_nonzero', y != 0)
             if is_cint(b) and b > 0:
                 return simp(x % y)
-            return simp(z3.If(y > 0, x % y, -((-x) % (-y))))
+            # symbolic divisor: an uninterpreted symbol with the defining facts instantiated per occurrence
+            # (verify.new_ctx registers them), which keeps the VCs linear for small offsets
+            return IMOD(x, y)
         x, y = ZR(a), ZR(b)
         if ob:
             ob('div_nonzero', y != 0)
